@@ -101,7 +101,23 @@ pub fn build_tcp(sig: &TSig, request: bool, v4: bool, hops: u8, r: &mut Rng, ep:
     }
     // option bytes from the layout
     let mss = if sig.olayout.contains(&TcpOption::Mss) { Some(sig.mss.unwrap_or(*r.pick(&[1460u16, 1400, 1380, 536, 1452]))) } else { None };
-    let ws = if sig.olayout.contains(&TcpOption::Ws) { Some(sig.wscale.unwrap_or(*r.pick(&[0u8, 2, 7, 8]))) } else { None };
+    // a wildcard scale admits every shift count the quirk list allows: 0..=14 without `exws`,
+    // 15..=255 with it (the bounds themselves are drawn often)
+    let ws = if sig.olayout.contains(&TcpOption::Ws) {
+        Some(sig.wscale.unwrap_or_else(|| {
+            if has(q, &Quirk::ExcessiveWindowScaling) {
+                *r.pick(&[15u8, 16, 64, 255, 15])
+            } else {
+                match r.below(4) {
+                    0 => 14,
+                    1 => 0,
+                    _ => r.below(15) as u8,
+                }
+            }
+        }))
+    } else {
+        None
+    };
     if sig.mss.is_some() && mss.is_none() && sig.mss != Some(0) {
         return None; // signature fixes an MSS but has no MSS option
     }
@@ -557,6 +573,173 @@ fn report(ctx: &mut Ctx, db_name: &str, table: &str, label: &Label, sig: &str, b
     }
 }
 
+/// "Any database in the same format": databases derived from the bundled text by commenting out
+/// every `sig` line of a few seeded labels (the labels stay, without signatures).  Removing other
+/// labels' signatures only removes competitors, so traffic that the bundled database matches to
+/// its signature's OWN label must be matched to that label by the derived database too.
+fn derived_dbs(ctx: &mut Ctx) {
+    if ctx.miri() {
+        return;
+    }
+    let Ok(text) = std::fs::read_to_string("/repo/huginn-net-db/config/p0f.fp") else {
+        ctx.inconclusive("bundled p0f.fp not readable");
+        return;
+    };
+    let bundled = scenario::db();
+    let rounds = ctx.scale(1, 8, 0);
+    for round in 0..rounds {
+        let mut r = ctx.rng(1390 + round);
+        // ---- derive: strip the signatures of 1..3 labels in each signature section
+        let mut counts: BTreeMap<String, usize> = BTreeMap::new();
+        let mut section = String::new();
+        for l in text.lines() {
+            let t = l.trim();
+            if t.starts_with('[') {
+                section = t.to_string();
+            } else if t.starts_with("label") && (section.starts_with("[tcp:") || section.starts_with("[http:")) {
+                *counts.entry(section.clone()).or_insert(0) += 1;
+            }
+        }
+        let mut victims: BTreeMap<String, Vec<usize>> = BTreeMap::new();
+        for (sec, n) in &counts {
+            let k = 1 + r.usize(3);
+            // never the last label only: the labels after a stripped one are the interesting ones
+            victims.insert(sec.clone(), (0..k).map(|_| r.usize((*n).max(2) - 1)).collect());
+        }
+        let mut out = String::with_capacity(text.len() + 4096);
+        let mut ord: isize = -1;
+        let mut stripped_labels: Vec<String> = Vec::new();
+        section.clear();
+        for l in text.lines() {
+            let t = l.trim();
+            if t.starts_with('[') {
+                section = t.to_string();
+                ord = -1;
+            }
+            let in_sig_section = section.starts_with("[tcp:") || section.starts_with("[http:");
+            if in_sig_section && t.starts_with("label") {
+                ord += 1;
+                if victims.get(&section).map(|v| v.contains(&(ord as usize))).unwrap_or(false) {
+                    stripped_labels.push(format!("{section} {t}"));
+                }
+            }
+            let victim = in_sig_section && ord >= 0 && victims.get(&section).map(|v| v.contains(&(ord as usize))).unwrap_or(false);
+            if victim && t.starts_with("sig") {
+                out.push_str("; ");
+            }
+            out.push_str(l);
+            out.push('\n');
+        }
+        let derived = match guard(|| out.parse::<Database>()) {
+            Ok(Ok(d)) => std::sync::Arc::new(d),
+            other => {
+                ctx.inconclusive("a database derived from the bundled text (labels without signatures) does not load: C06 matter");
+                ctx.note(&format!("derived database {round}: {:?}", other.map(|r| r.map(|_| ()).map_err(|e| e.to_string()))));
+                continue;
+            }
+        };
+        let tcp_b = huginn_net_tcp::HuginnNetTcp::new(Some(bundled.clone()), 64).expect("tcp analyzer");
+        let tcp_d = huginn_net_tcp::HuginnNetTcp::new(Some(derived.clone()), 64).expect("tcp analyzer");
+        let lab = |l: &Label| format!("{}|{:?}|{:?}", l.name, l.class, l.flavor);
+        let mut idx = 0u64;
+        let (mut kept, mut compared) = (0u64, 0u64);
+        for (table, request, entries) in [("tcp:request", true, &derived.tcp_request.entries), ("tcp:response", false, &derived.tcp_response.entries)] {
+            for (label, sigs) in entries.iter() {
+                for sig in sigs {
+                    idx += 1;
+                    for v in 0..ctx.scale(4, 12, 0) {
+                        let v4 = match sig.version {
+                            IpVersion::V4 => true,
+                            IpVersion::V6 => false,
+                            IpVersion::Any => v % 2 == 0,
+                        };
+                        let hops = if v % 3 == 0 { 0 } else { 1 + r.below(30) as u8 };
+                        let ep = Endpoints::v4([10, 5, (idx >> 8) as u8, idx as u8], 1025 + (v as u16 * 13) % 60000, [198, 51, 100, 7], 80);
+                        let Some(b) = build_tcp(sig, request, v4, hops, &mut r, &ep) else { continue };
+                        let run = |a: &huginn_net_tcp::HuginnNetTcp| -> Result<Option<String>, String> {
+                            let mut tracker = ttl_cache::TtlCache::new(16);
+                            guard(|| a.verif_process_packet(&b.frame, &mut tracker)).map(|res| match res {
+                                Ok(t) => {
+                                    let os = if request { t.syn.as_ref().map(|s| &s.os_matched) } else { t.syn_ack.as_ref().map(|s| &s.os_matched) };
+                                    os.and_then(|o| o.os.as_ref()).map(|o| format!("{}|{:?}|{:?}", o.name, o.family, o.variant))
+                                }
+                                Err(_) => None,
+                            })
+                        };
+                        let own = lab(label);
+                        compared += 1;
+                        if run(&tcp_b) != Ok(Some(own.clone())) {
+                            continue; // not matched to its own label by the bundled database: judged by the main stage
+                        }
+                        kept += 1;
+                        let got = run(&tcp_d);
+                        ctx.judge(got == Ok(Some(own.clone())), &[], "a database derived from the bundled one (other labels' signatures removed) no longer matches conforming traffic to its label", || {
+                            json!({"table": table, "label": label_text(label), "signature": sig.to_string(), "bundled_match": own, "derived_match": format!("{got:?}"),
+                                   "labels_without_signatures": stripped_labels, "frame_hex": hex(&b.frame)})
+                        });
+                    }
+                }
+            }
+        }
+        for (table, request, entries) in [("http:request", true, &derived.http_request.entries), ("http:response", false, &derived.http_response.entries)] {
+            for (label, sigs) in entries.iter() {
+                for sig in sigs {
+                    idx += 1;
+                    for v in [0u64, 6, 9, 15] {
+                        let v11 = match sig.version {
+                            Version::V10 => false,
+                            Version::V11 => true,
+                            _ => v % 2 == 0,
+                        };
+                        let (bytes, _model) = build_http(sig, request, v11, v & 2 != 0, v & 4 != 0, v & 8 != 0);
+                        let ep = Endpoints::v4([10, 6, (idx >> 8) as u8, idx as u8], 2000 + v as u16, [198, 51, 100, 9], 80);
+                        let mut s = Script::new(ep, Link::Ethernet, r.u32(), r.u32());
+                        s.handshake();
+                        if request {
+                            s.c_data(&bytes);
+                        } else {
+                            s.c_data(b"GET / HTTP/1.1\r\nHost: a\r\n\r\n");
+                            s.s_data(&bytes);
+                        }
+                        let run = |db: std::sync::Arc<Database>| -> Result<Option<String>, String> {
+                            let mut a = huginn_net_http::HuginnNetHttp::new(Some(db), 16).expect("http analyzer");
+                            let mut matched: Option<String> = None;
+                            for f in &s.frames {
+                                let res = guard(|| a.verif_process_packet(f))?;
+                                if let Ok(res) = res {
+                                    if request {
+                                        if let Some(q) = res.http_request {
+                                            matched = q.browser_matched.browser.map(|b| format!("{}|{:?}|{:?}", b.name, b.family, b.variant));
+                                        }
+                                    } else if let Some(q) = res.http_response {
+                                        matched = q.web_server_matched.web_server.map(|b| format!("{}|{:?}|{:?}", b.name, b.family, b.variant));
+                                    }
+                                }
+                            }
+                            Ok(matched)
+                        };
+                        let own = lab(label);
+                        compared += 1;
+                        if run(bundled.clone()) != Ok(Some(own.clone())) {
+                            continue;
+                        }
+                        kept += 1;
+                        let got = run(derived.clone());
+                        ctx.judge(got == Ok(Some(own.clone())), &[], "a database derived from the bundled one (other labels' signatures removed) no longer matches conforming traffic to its label", || {
+                            json!({"table": table, "label": label_text(label), "signature": sig.to_string(), "bundled_match": own, "derived_match": format!("{got:?}"),
+                                   "labels_without_signatures": stripped_labels, "message": String::from_utf8_lossy(&bytes)})
+                        });
+                    }
+                }
+            }
+        }
+        ctx.class_n("derived-db/traffic-compared", compared);
+        ctx.class_n("derived-db/own-label-in-bundled(judged)", kept);
+        ctx.bucket(&format!("derived-db/labels-stripped={}", stripped_labels.len().min(12)));
+        ctx.stage_add("derived_databases", 1);
+    }
+}
+
 fn clone_db(db: &Database) -> Database {
     // Database is not Clone: rebuild from the same text
     let _ = db;
@@ -567,6 +750,7 @@ pub fn run(ctx: &mut Ctx) {
     huginn_net_tcp::verif_hooks::clock::set_ms(scenario::T0);
     let items = finding_items();
     check_db(ctx, scenario::db_static(), "bundled", &items);
+    derived_dbs(ctx);
     huginn_net_tcp::verif_hooks::clock::clear();
 }
 
@@ -579,6 +763,7 @@ pub fn spec() -> PropSpec {
         assumptions: &[
             "variant classes: TCP (IP version, hop count 0 / 1..30); HTTP (values exact / as substrings, software string exact / inside a longer string)",
             "signatures whose layout cannot be put on the wire without extra padding, or whose quirks contradict their own fields, are reported as 'unconstructible'",
+            "derived databases: the bundled text with every sig line of 1..3 seeded labels per section commented out; judged there is the traffic that the bundled database matches to its signature's own label (removing other labels' signatures only removes competitors)",
             "dead signatures of the unchanged tree are listed item by item in known_findings.json (C13-dead-signatures.items); any item not listed is a violation, and a listed item that became reachable is only noted",
         ],
         parent_stage: None,
